@@ -10,7 +10,7 @@ use garnish_lang_simple_data::SimpleNumber;
 use garnish_lang_traits::{GarnishData, GarnishDataType, GarnishNumber, Instruction};
 
 /// cell capacity of the one-step harnesses
-pub const SC: usize = 10;
+pub const SC: usize = 16;
 pub type SD = BoundedData<SC>;
 
 pub struct Step {
